@@ -334,4 +334,6 @@ end RenetVerif.SrcPropsNcClientHistory
     window of the datagrams presented" is not proved at the model level).
   * `NetcodeClient::new` with `ClientAuthentication::Unsecure` (token generated from the four explicit random values;
     `SrcTie.nc_client_new_unsecure`) as a start of `GNcC`.
+  DONE LATER (round 20): the second bullet (C04 over whole client runs) and C17 client nonces → Props/C04C.lean,
+  Props/SrcPropsNcClientTrace.lean.  The first and third bullets are still open.
 -/
